@@ -414,6 +414,30 @@ theorem rmSet_addSet_fresh {s : Store} {k : Nat} {d} (h : k ∉ keys s) : rmSet 
     have hak : a ≠ k := fun e => h.1 e.symm
     simp only [addSet, if_neg hak, rmSet]; rw [ih h.2]
 
+/-- the abstract specification of a `KeyedStorage`: a plain relation key–member -/
+def absStep (R : Nat → Nat → Prop) : Op → Nat → Nat → Prop
+  | .addSet k d => fun k' v => R k' v ∨ (k' = k ∧ v ∈ d)
+  | .rmSet k d => fun k' v => R k' v ∧ ¬ (k' = k ∧ v ∈ d)
+  | .addEntry k x => fun k' v => R k' v ∨ (k' = k ∧ v = x)
+  | .rmEntry k x => fun k' v => R k' v ∧ ¬ (k' = k ∧ v = x)
+  | .delKey k => fun k' v => R k' v ∧ k' ≠ k
+
+/-- **refinement**: every call history on a `KeyedStorage` reads like the relation obtained by adding and deleting
+    pairs — nothing is kept that was removed, nothing is lost that was not (guarded or not) -/
+theorem run_refines (ops : List Op) {s : Store} {R : Nat → Nat → Prop} (h : Inv s)
+    (hr : ∀ k v, v ∈ bucket s k ↔ R k v) (k v : Nat) :
+    v ∈ bucket (run s ops) k ↔ ops.foldl absStep R k v := by
+  induction ops generalizing s R with
+  | nil => exact hr k v
+  | cons op ops ih =>
+    refine ih (s := step s op) (R := absStep R op) (inv_step op h) (fun k' v' => ?_)
+    cases op with
+    | addSet a d => simp only [step, absStep]; rw [mem_bucket_addSet, hr]
+    | rmSet a d => simp only [step, absStep]; rw [mem_bucket_rmSet h.1, hr]
+    | addEntry a x => simp only [step, absStep]; rw [mem_bucket_addEntry, hr]
+    | rmEntry a x => simp only [step, absStep]; rw [mem_bucket_rmEntry h, hr]
+    | delKey a => simp only [step, absStep]; rw [mem_bucket_delKey h.1, hr]
+
 /-! ### the excluded point, decided: what the guard is for (replayed on the real class by the harness) -/
 /-- `add_data_set(key, ())` on a missing key creates an empty bucket … -/
 theorem unguarded_add_creates_empty_bucket : addSet [] 7 [] = [(7, [])] := by decide
